@@ -28,7 +28,7 @@ impl Prop for C12 {
         vec!["invariant over a blocking in-memory transport, not a kernel socket; plaintext only (C18 applies the lock-step detection over TLS)".into()]
     }
     fn cases(&self, tier: Tier) -> u64 {
-        tier.pick(30_000, 500_000)
+        tier.pick(250000, 2500000)
     }
     fn choice_len(&self) -> usize {
         4096
